@@ -7,7 +7,7 @@ use crate::specs::ok;
 use palette::convert::FromColorUnclamped;
 use palette::{Okhsl, Okhsv, Oklab, OklabHue};
 
-program!(c02_okhsl_to_oklab_ottosson, "C02", "quick", s,
+program!(c02_okhsl_to_oklab_ottosson, "C02,C15", "quick", s,
     "FromColorUnclamped<Okhsl> for Oklab [oklab.rs] -> ok_utils::{toe_inv, ChromaValues::from_normalized (get_Cs), LC::find_cusp, LC::max_saturation, find_gamut_intersection, ST::from, ST::mid} [ok_utils.rs], oklab::oklab_to_linear_srgb",
     "Okhsl -> Oklab equals Ottosson's okhsl_to_srgb (up to its Oklab stage) for every hue, every saturation and every lightness strictly between 0 and 1, on every path (max-saturation region, lower / upper half of the gamut triangle, validity of each Halley step, s below / above 0.8)",
 {
@@ -21,7 +21,7 @@ program!(c02_okhsl_to_oklab_ottosson, "C02", "quick", s,
     T::ensure("ottosson.b", same_or_close(lab.b, sb, tol));
 });
 
-program!(c02_oklab_to_okhsl_ottosson, "C02", "quick", s,
+program!(c02_oklab_to_okhsl_ottosson, "C02,C15", "quick", s,
     "FromColorUnclamped<Oklab> for Okhsl [okhsl.rs] -> ok_utils::{toe, ChromaValues::from_normalized, LC::find_cusp, LC::max_saturation, find_gamut_intersection, ST::from, ST::mid}",
     "Oklab -> Okhsl equals Ottosson's srgb_to_okhsl (from its Oklab stage) for every chromatic Oklab colour with 0 < L < 1, on every path; the hue is the reference's angle pi + atan2(-b, -a)",
 {
@@ -37,7 +37,7 @@ program!(c02_oklab_to_okhsl_ottosson, "C02", "quick", s,
     T::ensure("ottosson.hue", same_or_hue_close(hsl.hue.into_raw_degrees(), hue, T::tol(1e-9, 1e-6)));
 });
 
-program!(c02_okhsv_to_oklab_ottosson, "C02", "quick", s,
+program!(c02_okhsv_to_oklab_ottosson, "C02,C15", "quick", s,
     "FromColorUnclamped<Okhsv> for Oklab [oklab.rs] -> ok_utils::{toe_inv, LC::find_cusp, LC::max_saturation, ST::from}, oklab::oklab_to_linear_srgb",
     "Okhsv -> Oklab equals Ottosson's okhsv_to_srgb (up to its Oklab stage) for every hue and all saturation, value in (0, 1], on every path",
 {
@@ -52,7 +52,7 @@ program!(c02_okhsv_to_oklab_ottosson, "C02", "quick", s,
     T::ensure("ottosson.b", same_or_close(lab.b, sb, tol));
 });
 
-program!(c02_oklab_to_okhsv_ottosson, "C02", "quick", s,
+program!(c02_oklab_to_okhsv_ottosson, "C02,C15", "quick", s,
     "FromColorUnclamped<Oklab> for Okhsv [okhsv.rs] -> ok_utils::{toe, toe_inv, LC::find_cusp, LC::max_saturation, ST::from}, oklab::oklab_to_linear_srgb",
     "Oklab -> Okhsv equals Ottosson's srgb_to_okhsv (from its Oklab stage) for every chromatic Oklab colour with L > 0, on every path; the hue is the reference's angle pi + atan2(-b, -a)",
 {
